@@ -39,7 +39,20 @@ type Pipe struct {
 	Splits        int // reads that returned fewer bytes than available
 	Coalesced     int // reads that returned more than one write's worth
 	lastWriteEnd  []int
+	WLog          []WRec // every write: end offset and step, so that a reader can date any byte
 	OnRead        func(n int) // harness observer (called by the reading goroutine)
+}
+
+type WRec struct{ End, Step int }
+
+// WrittenAt returns the step at which the byte at stream offset off was written.
+func (p *Pipe) WrittenAt(off int) int {
+	for _, w := range p.WLog {
+		if w.End > off {
+			return w.Step
+		}
+	}
+	return -1
 }
 
 // Conn is one end of a simulated connection. All state transitions happen in
@@ -195,6 +208,9 @@ func (c *Conn) Write(b []byte) (int, error) {
 		}
 		out.buf = append(out.buf, b[:keep]...)
 		out.Written += n
+		if n > 0 {
+			out.WLog = append(out.WLog, WRec{out.Written, Step()})
+		}
 		b = b[n:]
 		w += n
 		if fail {
